@@ -21,7 +21,8 @@ RULE = ('tier 1: for each program (3-8 operations covering every mutating method
         'tier 1b: the same at every gate of opening (creating or re-opening) a Cache / Deque / Index / FanoutCache '
         'directory that was absent, empty or populated, followed by one file-backed write. tier 2: strace injects SIGKILL at the n-th file-mutating syscall inside SQLite. tier 3: SIGKILL from outside at '
         'random instants into a 2-thread child. evaluations = kill runs judged; distinct_nontrivial = distinct '
-        '(program, kill gate) pairs + distinct (syscall, n) kills')
+        '(program, kill gate) pairs + distinct (syscall, n) kills'
+        " One fixed program makes calls fail with SQLite having rolled the transaction back itself (as for SQLITE_IOERR/NOMEM/INTERRUPT; the library's own ROLLBACK then fails) and is killed at every gate of the blocks that follow.")
 DISTINCT = ('kill_points', 'syscall_kills', 'random_kills')
 REQUIRED = ('calls_failed_with_sqlite_having_rolled_back', 'kills_inside_blocks_after_a_sqlite_side_rollback', 'kills_beside_a_waiting_writer', 'gate_kills_judged', 'kills_during_open', 'kills_during_first_write', 'programs_wal', 'programs_rollback_journal', 'blocked_commit_runs_with_failed_commit', 'size_evictions_seen_in_dry_runs', 'programs_fully_enumerated', 'kills_inside_block', 'kills_at_file_ops',
             'kills_at_sql_gates', 'debris_seen_unknown_files_or_dirs', 'syscall_kills_judged', 'random_kills_judged')
